@@ -210,10 +210,14 @@ pub fn minimise<E: Engine>(
     let mut cur = case.clone();
     let mut spent = 0usize;
     let mut scratch = Counters::default();
+    // minimisation is bounded in executions and in wall-clock time (it only affects how
+    // small the replay is, never whether the violation is reported)
+    let t0 = Instant::now();
+    let max_secs: u64 = std::env::var("VERIF_MINIMISE_SECS").ok().and_then(|s| s.parse().ok()).unwrap_or(25);
     'outer: loop {
         let cands = engine.shrink(&cur);
         for cand in cands {
-            if spent >= budget {
+            if spent >= budget || t0.elapsed().as_secs() >= max_secs {
                 break 'outer;
             }
             spent += 1;
